@@ -36,6 +36,16 @@ type CallFrame struct {
 	InstructionPointer uint
 }
 
+// Where to continue if an exception is raised, and the machine state that has to be
+// restored when that happens: everything above these marks belongs to calls, scopes and
+// expressions which the exception terminates.
+type CatchLabel struct {
+	CallFrame
+	CallStackDepth int
+	StackHeight    int
+	MemoryPointer  int64
+}
+
 type Core struct {
 	CallStack []CallFrame
 	// Replace with continuous memory, implement a stack pointer
@@ -52,7 +62,7 @@ type Core struct {
 	SignalHandle chan *value.VmInterrupt
 
 	// A `stack` of labels to jump to if an exception is raised
-	ExceptionCatchLabels []CallFrame
+	ExceptionCatchLabels []CatchLabel
 
 	// Points to the start of the current stackframe
 	// Then, the absolute index can be computed by adding the value of mp and the relative offset of the memory location.
@@ -90,7 +100,7 @@ func NewCore(
 		Executor:             executor,
 		Corenum:              coreNum,
 		SignalHandle:         handle,
-		ExceptionCatchLabels: []CallFrame{},
+		ExceptionCatchLabels: []CatchLabel{},
 		MemoryPointer:        0,
 		CancelCtx:            ctx,
 		Limits:               limits,
@@ -311,14 +321,13 @@ outer:
 						return
 					}
 
-					// If the exception occurred in another function, also pop the call frame of this function
-					// If this was not the case, a function would basically "return twice",
-					// as the jump to the error-handling code would not pop the most current call frame.
+					// Unwind to the state in which the `try` was entered: pop every call frame that was pushed since
+					// (the exception may have crossed any number of calls) and give back their operands and memory.
 					catchLocation := self.ExceptionCatchLabels[len(self.ExceptionCatchLabels)-1]
-					if self.callFrame().Function != catchLocation.Function {
-						self.popCallStack()
-					}
-					*self.callFrame() = catchLocation
+					self.CallStack = self.CallStack[:catchLocation.CallStackDepth]
+					self.Stack = self.Stack[:catchLocation.StackHeight]
+					self.MemoryPointer = catchLocation.MemoryPointer
+					*self.callFrame() = catchLocation.CallFrame
 
 					self.push(
 						value.NewValueObject(map[string]*value.Value{
